@@ -65,6 +65,12 @@ var c18Contents = []string{
 	"a\x00b\n",
 	"let s = `raw`\nlet t = $\"{x}\"\n",
 	strings.Repeat("long line ", 400) + "\n",
+	"\xef\xbb\xbfpackage main // starts with a UTF-8 byte order mark\n",
+	"mid \xef\xbb\xbf BOM\n\xef\xbb\xbf",
+	"\xff\xfe invalid UTF-8 \xc3\n",
+	" \t leading and trailing white space \t \n \n",
+	"\r\n\r\n",
+	"\x1b[31mescape sequences\x1b[0m\x07\n",
 }
 
 var c18Titles = []string{"", "Simple", "Two words", "Three  spaces   inside", " leading space", "trailing space ", "with `tick` and %d", "日本語 title", "a", "### hashes", "x.fo"}
